@@ -74,7 +74,7 @@ PROPS = {
         "timeout": 3000,
     },
     "C13": {
-        "claimed": False,
+        
         "lean_props": ["ZarrsModel.Props.C13"],
         "harness": "c13",
         "rule": "MetadataV3 texts (24 fixed forms incl. sequence form, null/ill-typed members, unknown keys + random); structured ArrayMetadataV3 documents: ranks 0..3, 7 data types with matching fill "
